@@ -675,6 +675,7 @@ func (r *Rec) IterCheck(name string, a, b, n int, stops []int) {
 	tr.fInt("p", a)
 	tr.fBool("open", name == "Range" && b == 0)
 	tr.fInts("stops", lstops)
+	tr.fInts("req", stops) // the stop positions as requested (-1 complete, -2 nested pair): what a re-execution replays, also when the call panicked half way
 	tr.fInts("nest", nests)
 	tr.fIntss("passes", passes)
 	tr.fIntss("pvals", pvals)
